@@ -209,30 +209,54 @@ def parseTable : List String → Table → Table
   | k :: v :: r, t => parseTable r (t.insert k v)
   | _, t => t
 
-def handle (cfg : Config) (line : String) : Config × String :=
+structure DState where
+  cfg : Config
+  tbl : Table
+  /-- requests kept for re-execution once their environment answers arrive -/
+  kept : Std.HashMap String String := {}
+
+def runOp (s : DState) (toks : List String) : String :=
+  match toks with
+  | "split" :: args => opSplit args
+  | "hunks" :: args => opHunks args
+  | "until" :: args => opUntil args
+  | "read" :: args => opRead s.cfg s.tbl args
+  | "write" :: args => opWrite s.cfg s.tbl args
+  | _ => "E bad-op"
+
+/-- `env k v k v …` adds environment answers (kept for later requests);
+`envclear` forgets them.  `@id op args…` runs a request and keeps it when it
+needs an environment answer; `!id` re-runs a kept request. -/
+def handle (s : DState) (line : String) : DState × String :=
   let toks := (line.trimAscii.toString.splitOn " ").filter (· ≠ "")
-  let (main, envToks) := match toks.span (· ≠ "|") with
-    | (m, _ :: e) => (m, e)
-    | (m, []) => (m, [])
-  let tbl := parseTable envToks {}
-  match main with
+  match toks with
   | "cfg" :: args =>
     match parseCfg args with
-    | some c => (c, "R ok")
-    | none => (cfg, "E bad-cfg")
-  | "split" :: args => (cfg, opSplit args)
-  | "hunks" :: args => (cfg, opHunks args)
-  | "until" :: args => (cfg, opUntil args)
-  | "read" :: args => (cfg, opRead cfg tbl args)
-  | "write" :: args => (cfg, opWrite cfg tbl args)
-  | _ => (cfg, "E bad-op")
+    | some c => ({ s with cfg := c }, "R ok")
+    | none => (s, "E bad-cfg")
+  | "env" :: kvs => ({ s with tbl := parseTable kvs s.tbl }, "R ok")
+  | ["envclear"] => ({ s with tbl := {}, kept := {} }, "R ok")
+  | t :: rest =>
+    if t.startsWith "@" then
+      let r := runOp s rest
+      if r.startsWith "Q " then ({ s with kept := s.kept.insert (t.drop 1).toString (" ".intercalate rest) }, r)
+      else (s, r)
+    else if t.startsWith "!" then
+      let id := (t.drop 1).toString
+      match s.kept.get? id with
+      | none => (s, "E unknown-id")
+      | some l =>
+        let r := runOp s ((l.splitOn " ").filter (· ≠ ""))
+        if r.startsWith "Q " then (s, r) else ({ s with kept := s.kept.erase id }, r)
+    else (s, runOp s toks)
+  | [] => (s, "E bad-op")
 
-partial def loop (h out : IO.FS.Stream) (cfg : Config) : IO Unit := do
+partial def loop (h out : IO.FS.Stream) (s : DState) : IO Unit := do
   let line ← h.getLine
   if line.isEmpty then return ()
-  let (cfg', resp) := handle cfg line
+  let (s', resp) := handle s line
   out.putStrLn resp
   out.flush
-  loop h out cfg'
+  loop h out s'
 
-def main : IO Unit := do loop (← IO.getStdin) (← IO.getStdout) defaultCfg
+def main : IO Unit := do loop (← IO.getStdin) (← IO.getStdout) { cfg := defaultCfg, tbl := {} }
